@@ -34,7 +34,7 @@ RULE = (
     "another state of the global random generator; the in-process history re-seeds `random` between calls). distinct_nontrivial = "
     "distinct pairs whose routed return has >= 2 positive-weight groups and that were observed by >= 2 instances and "
     ">= 2 processes."
-    ' Added later: case-twin splitters, padded and unencodable ids (same error every time), records with a declared field left out, keyword order shuffled per call, copies (copy / deepcopy) of evaluators taken in the middle of recompile cycles, a fake-world child whose clocks run 3600x fast.'
+    ' Added later: twelve sibling revisions that weak change detectors confuse (round 9); case-twin splitters, padded and unencodable ids (same error every time), records with a declared field left out, keyword order shuffled per call, copies (copy / deepcopy) of evaluators taken in the middle of recompile cycles, a fake-world child whose clocks run 3600x fast.'
 )
 ASSUMPTIONS = [
     "only the C, C.UTF-8 and POSIX locales exist in this image; 'another interpreter' means another process of the same "
